@@ -277,15 +277,21 @@ class StatementLineageHolder(SubQueryLineageHolder, ColumnLineageMixin):
         self._property_setter(value, NodeTag.DROP)
 
     @property
-    def rename(self) -> set[tuple[Table, Table]]:
-        return {
-            (src, tgt)
+    def rename(self) -> list[tuple[Table, Table]]:
+        """
+        rename pairs in the order of the statement, `RENAME TABLE a TO b, b TO c` is executed from left to right
+        """
+        renames = [
+            (src, tgt, attr.get(EdgeTag.INDEX, 0))
             for src, tgt, attr in self.graph.edges(data=True)
             if attr.get("type") == EdgeType.RENAME
-        }
+        ]
+        return [(src, tgt) for src, tgt, _ in sorted(renames, key=lambda x: x[2])]
 
     def add_rename(self, src: Table, tgt: Table) -> None:
-        self.graph.add_edge(src, tgt, type=EdgeType.RENAME)
+        self.graph.add_edge(
+            src, tgt, type=EdgeType.RENAME, **{EdgeTag.INDEX: len(self.rename)}
+        )
 
     @staticmethod
     def of(holder: SubQueryLineageHolder) -> "StatementLineageHolder":
@@ -382,9 +388,13 @@ class SQLLineageHolder(ColumnLineageMixin):
                     if g.has_node(table) and g.degree[table] == 0:
                         g.remove_node(table)
             elif holder.rename:
-                for table_old, table_new in holder.rename:
+                renames = holder.rename
+                # the rename pairs themselves are not lineage, drop them before any table gets relabeled
+                g.remove_edges_from(renames)
+                for table_old, table_new in renames:
                     g = nx.relabel_nodes(g, {table_old: table_new})
-                    g.remove_edge(table_new, table_new)
+                    if g.has_edge(table_new, table_new):
+                        g.remove_edge(table_new, table_new)
                     if g.degree[table_new] == 0:
                         g.remove_node(table_new)
             else:
